@@ -278,6 +278,20 @@ func ruleBoundScoped(c *Ctx, only func(*Func) bool) {
 						}
 					}
 				}
+				if _, ok := reviewedBare[key]; !ok {
+					// the reviewed operation moved: exactly one reviewed entry has this
+					// descriptor and its function no longer exists (renamed, or a
+					// private helper that the normaliser inlined into this function)
+					var cands []string
+					for k := range reviewedBare {
+						if j := strings.Index(k, "|"); j >= 0 && k[j+1:] == desc && p.Fn(k[:j]) == nil {
+							cands = append(cands, k)
+						}
+					}
+					if len(cands) == 1 {
+						key = cands[0]
+					}
+				}
 				if reason, ok := reviewedBare[key]; ok {
 					c.R.Except("R-BOUND/site", p.Pos(op.Ast), f.Name, op.Desc, reason)
 				} else {
